@@ -2,6 +2,7 @@ import Model.Common.Proto
 import Model.C18.Fee
 import Model.C18.Funding
 import Model.C18.Amount
+import Model.C18.SpendSize
 import Generated.Fee
 open Btc Btc.C18
 
@@ -73,6 +74,10 @@ def handle : List String → String
   | "feerate.from_vb" :: d => (dec? d).elim "bad-op" fun d => Gen.render (feeRateFromSatsPerVbyte d)
   | "feerate.from_btc_kvb" :: d => (dec? d).elim "bad-op" fun d => Gen.render (feeRateFromBtcPerKvbyte d)
   | ["feerate.vb", k] => (parseInt? k).elim "bad-op" fun k => renderDecPair (.ok (satsPerVbyte k))
+  | ["der.len", r, s] =>
+    match r.toNat?, s.toNat? with
+    | some r, some s => s!"ok {derSigLen r s}"
+    | _, _ => "bad-op"
   | _ => "bad-op"
 
 def main : IO Unit := runLoop handle
